@@ -327,6 +327,10 @@ func (t *tracker) judgeRecovery(w *wal.WAL, fs *simfs.FS, v *verdicts, where str
 			err := w.GetLog(i, &got)
 			if err != nil || refmodel.Diff(want, &got) != "" || i < f || i > l {
 				v.add("C01", "ack-lost", "%s; acknowledged entry %d is missing or altered after recovery (GetLog err=%v)", desc, i, err)
+				if t.hadTrunc {
+					// entries that a truncation kept did not survive it
+					v.add("C04", "kept-entries-lost-after-truncation", "%s; entry %d, kept by the acknowledged truncation(s), is missing or altered after recovery (GetLog err=%v)", desc, i, err)
+				}
 				lost = true
 				break
 			}
@@ -541,6 +545,40 @@ func checkDir(fs *simfs.FS, v *verdicts, where string) {
 	}
 	if len(fs.CreateDup) > 0 {
 		v.add("C13", "create-collision", "%s: Create called on an existing file name: %v", where, fs.CreateDup)
+	}
+	// C09 (format across crash histories): a sealed segment's metadata IndexStart is the offset of the
+	// payload of the index frame that its final committed batch carries, and MaxIndex does not exceed what the file holds
+	if ok {
+		for _, si := range st.Segments {
+			if si.SealTime.IsZero() {
+				continue
+			}
+			b, has := fs.ReadFile(segment.FileName(si))
+			if !has {
+				continue
+			}
+			_, groups, committed, _ := refmodel.DecodeSegment(b)
+			if committed == 0 || len(groups) == 0 {
+				v.add("C09", "sealed-without-commit", "%s: segment %s is sealed in metadata but holds no valid committed batch", where, segment.FileName(si))
+				continue
+			}
+			idx := -1
+			entries := 0
+			for _, g := range groups {
+				entries += len(g.Entries)
+				if g.HasIndex {
+					idx = g.IndexOffset
+				}
+			}
+			if idx < 0 {
+				v.add("C09", "sealed-no-index", "%s: segment %s is sealed in metadata but no committed batch carries an index frame", where, segment.FileName(si))
+			} else if si.IndexStart != uint64(idx+8) {
+				v.add("C09", "indexstart", "%s: segment %s: metadata IndexStart=%d but the index array is at offset %d", where, segment.FileName(si), si.IndexStart, idx+8)
+			}
+			if si.MaxIndex >= si.BaseIndex && int(si.MaxIndex-si.BaseIndex)+1 > entries {
+				v.add("C09", "maxindex-beyond-file", "%s: segment %s: metadata MaxIndex=%d but the file holds only %d entries from %d", where, segment.FileName(si), si.MaxIndex, entries, si.BaseIndex)
+			}
+		}
 	}
 	if len(fs.CreateRetired) > 0 {
 		v.add("C13", "id-reused-after-retire", "%s: a segment file was created with an ID that had already been retired from the metadata: %v", where, fs.CreateRetired)
